@@ -22,7 +22,7 @@ Lines (written by harness/eng_srv.go):
   CID r<j> recv cs= lam= actor= vv=                      → ok          (one applied remote change)
   CID r<j> snap lam= vv=                                 → ok          (applied snapshot)
   CIDQ r<j>                                              → lam= vv= cp= pend=
-  ATT|PP|DET c<k> r<j> cp=<ss>,<cs> chg=<cs>/<lam>/<kind>/<vv>|… vv=<vv> nogc=0|1 [po=1] [lost=1]
+  ATT|PP|DET|REM c<k> r<j> cp=<ss>,<cs> chg=<cs>/<lam>/<kind>/<vv>|… vv=<vv> nogc=0|1 [po=1] [lost=1]
                                                          → R cp= changes=[actor:cs:ss;…] snap= vv= removed= req=ok
   SOP <ss> <op>                                          → ok|err      (operation of stored row ss, server fold)
   LOG | LOGF                                             → L …         (rows appended since the last LOG | all rows)
@@ -219,6 +219,7 @@ def request (st : St) (kind c r : String) (toks : List String) : St × List Stri
   let (s', res) :=
     if kind == "ATT" then Server.attach st.s cid docKey pack reqDp nogc
     else if kind == "PP" then Server.pushpullReq st.s cid docId pack (ProtoEngine.flag toks "po") nogc
+    else if kind == "REM" then Server.remove st.s cid docId pack
     else Server.detach st.s cid docId pack
   let (snaps', snapVV) := finishRequest st.interval st.snaps st.s s' docId cid pack nogc res
     (requestCpSeq st.s cid docId (kind == "ATT"))
@@ -303,6 +304,7 @@ def step (st : St) (toks : List String) : St × List String :=
   | "ATT" :: c :: r :: rest => request st "ATT" c r rest
   | "PP" :: c :: r :: rest => request st "PP" c r rest
   | "DET" :: c :: r :: rest => request st "DET" c r rest
+  | "REM" :: c :: r :: rest => request st "REM" c r rest
   | "SOP" :: ss :: rest =>
     let n := parseIntD ss
     let (c', res) := applyContent st.isText st.sfold rest
